@@ -60,6 +60,17 @@ pub fn jobs(thorough: bool) -> Vec<Job> {
 		for e in gen::dedup(ed) {
 			out.push(Job { input: e, family: "seed-edits-and-prefixes", srcs: all.clone(), heavy: false });
 		}
+		if f == F::Yaml {
+			for l in gen::yaml_layouts(thorough) {
+				out.push(Job { input: l.bytes, family: "size-ladder", srcs: vec![Some(f), None], heavy: false });
+			}
+		}
+		for l in gen::sized_streams(f, thorough) {
+			out.push(Job { input: l.bytes, family: "size-ladder", srcs: vec![Some(f), None], heavy: false });
+		}
+		for e in gen::linebreak_variants(f) {
+			out.push(Job { input: e, family: "seed-edits-and-prefixes", srcs: all.clone(), heavy: false });
+		}
 	}
 	for b in gen::all_bytes(2) {
 		out.push(Job { input: b, family: "all-bytes<=2", srcs: if thorough { all.clone() } else { vec![None, Some(F::Msgpack), Some(F::Yaml)] }, heavy: false });
